@@ -70,9 +70,11 @@ Definition utf8 (c : Z) : list Z :=
   else if c <? 2048 then [192 + c / 64; 128 + c mod 64]
   else if c <? 65536 then [224 + c / 4096; 128 + (c / 64) mod 64; 128 + c mod 64]
   else [240 + c / 262144; 128 + (c / 4096) mod 64; 128 + (c / 64) mod 64; 128 + c mod 64].
+(* '%XX' of a byte; the `mod 16` on the high digit is the identity on bytes
+   (0..255) and makes the function's range independent of its argument *)
 
 Definition hex_digit (d : Z) : Z := if d <? 10 then 48 + d else 55 + d.
-Definition pct (b : Z) : str := [37; hex_digit (b / 16); hex_digit (b mod 16)].
+Definition pct (b : Z) : str := [37; hex_digit ((b / 16) mod 16); hex_digit (b mod 16)].
 
 Definition is_alnum_ascii (c : Z) : bool :=
   ((48 <=? c) && (c <=? 57)) || ((65 <=? c) && (c <=? 90)) || ((97 <=? c) && (c <=? 122)).
